@@ -650,6 +650,8 @@ func instloopStart(t *tr, en *packages.Package) string {
 	b.WriteString("def factoryPerCall : List String := " + q(perCall) + "\n\n")
 	b.WriteString(instloopCallback(t, more["github.com/yandex/pandora/core/coreutil"]))
 	b.WriteString(instloopEngineRun(t, en))
+	// ---- engine.go: (*instancePool).Run, the await goroutine; plugin registry: the config getter (area_instloop_pool.go)
+	b.WriteString(instloopPool(t, en, pl))
 	return b.String()
 }
 
